@@ -422,6 +422,16 @@ def gate_opt(ctx):
             ctx.check(g, R, "open_stream(%s)" % args[1][-60:], "guarded by exists()", "Package::open opens the catalog stream %s without testing exists() first" % args[1][-80:],
                       o.loc(t["sp"]), fn=o.name, key="%s|%d" % (R, n))
     ctx.floor(R, "catalog open_stream sites", n, 3)
+    # only the two mandatory catalog tables are registered from their built-in definitions; _Validation exists in a package only if the file lists it
+    reg = [args[2] for b, nme, args, t in symcalls(prog, o, S) if nme.endswith("BTreeMap::<K, V, A>::insert") and "Rc<internal::table::Table>" in (t.get("written") or "") and len(args) > 2]
+    builtin = sorted(m for a in reg for m in re.findall(r"internal::package::(make_\w+_table)", a))
+    ctx.check(builtin == ["make_columns_table", "make_tables_table"], R, "built-in definitions registered by open", str(builtin), "Package::open registers the built-in definition(s) %s as tables of every "
+              "package; only _Tables and _Columns are mandatory — a file without _Validation must not be reported (and later saved) as having one" % builtin, o.loc(), fn=o.name, key=R + "|builtin")
+    # the _Validation index is keyed by the PAIR (table, column): identifiers may contain '.', so a joined string key collides
+    vkeys = {(t.get("written") or "").split("::insert")[0].split("::get")[0].split("::contains_key")[0] for b, nme, args, t in symcalls(prog, o, S)
+             if re.search(r"HashMap::<K, V, S, A>::(insert|get|contains_key)$", nme) and "ValueRef" in (t.get("written") or "")}
+    ctx.check(bool(vkeys) and all("HashMap::<(std::string::String, std::string::String)," in k for k in vkeys), R, "_Validation rows are indexed by (table, column)", "",
+              "Package::open indexes the _Validation rows in %s: a key that is not the pair of table and column name lets two different columns collide" % sorted(vkeys), o.loc(), fn=o.name, key=R + "|vkey")
 
 
 def ins1(ctx, fns=(OPEN, "msi::internal::query::Insert::exec"), floor=6):
